@@ -775,7 +775,20 @@ def rule_M1(prog, fixture=False):
             # writes that lie on every path to the normal exit happen in every call: what they store is not kept.  The
             # obligation is about the writes that happen only under a condition.
             tb = tuple(f.throw_blocks())
-            every = [(w, v) for (w, v) in writes if f.exit not in f.reachable(f.entry, removed_blocks=(f.block_of(w)[0],) + tb)]
+
+            def anchor_block(w):
+                # a write inside a loop refills the object whenever the loop is reached: the loop's header stands for it
+                top = None
+                for a in w.ancestors():
+                    if a.k in ("ForStmt", "WhileStmt", "DoStmt", "CXXForRangeStmt"):
+                        top = a
+                if top is not None:
+                    c = top.role("cond")
+                    loc = f.block_of(c) if c is not None else None
+                    if loc is not None:
+                        return loc[0]
+                return f.block_of(w)[0]
+            every = [(w, v) for (w, v) in writes if f.exit not in f.reachable(f.entry, removed_blocks=(anchor_block(w),) + tb)]
             allw = writes
             writes = [(w, v) for (w, v) in writes if not any(w is e[0] for e in every)]
             if not writes:
